@@ -887,6 +887,7 @@ def event_flags_rule(ctx):
     fmap = {"final": "is_catch", "mutated": "is_mut", "capture": "is_capture"}
     want = [fmap[x] for x in want_ts]
     fs = [f for f in tc.fns if f.base == "EventBinding" and f.name == "to_proc_gen" and f.body]
+    fs += [g for f0 in list(fs) for g in sir.reach(tc, f0) if g is not f0 and g.base == "EventBinding" and g.body]   # statements moved to helper methods
     k = 0
     from rules.c06 import statements as c06_statements, top_tokens
     for f in fs:
